@@ -16,8 +16,8 @@ func init() {
 		explanation: "Static clauses of 'ill-formed graphs are rejected deterministically; compiled graphs are immutable': " +
 			"(guards-dominate-writes) builder state of compose.graph is written only by the three guarded entry functions and their helpers; in each, the sticky-error guard and the compiled guard dominate every write; every error return made after the guards flows through the deferred sticky setter; " +
 			"(compile-pure) no compile function writes a graph field whose storage the compiled runner aliases; " +
-			"(gates) start/end presence, unresolved types, duplicate mapping targets, DAG validation and the step-limit rules each block the success return of compile; " +
-			"(presence) reserved keys, duplicate node, unknown endpoints, single-target branch, state handler without state are error arms that block the corresponding write; " +
+			"(gates) start/end presence, unresolved types, duplicate mapping targets, DAG validation and the step-limit rules each block the success return of compile; the step-limit rejection tests the runner's own DAG mode (however it was selected) on every path to success; " +
+			"(presence) reserved keys, duplicate node, unknown endpoints, single-target branch, state handler without state are error arms that block the corresponding write; each edge list is scanned for the end node under exactly the conditions under which it is extended (duplicate edges rejected for every combination of control/data flags); " +
 			"(no-panic) no explicit panic is reachable (VTA) from the Add*/Append*/Compile entry points; (nil-miss-deref) no unchecked map-miss dereference in builder/compile code; " +
 			"(chain-sticky) Chain.addNode checks the sticky error and the compiled flag first and reportError keeps the first error.",
 		decided:    []string{"guards-dominate-writes", "compile-pure", "gates", "presence", "no-panic", "nil-miss-deref", "chain-sticky"},
